@@ -1185,6 +1185,21 @@ fn path_segments(path: &kurbo::BezPath) -> Vec<Vec<Seg>> {
     }
     out
 }
+/// an integer at / next to the midpoint of two integers: floor, ceil or truncation of (a+b)/2 (they differ
+/// for odd and for negative sums), sometimes one further unit away
+fn near_mid(rng: &mut Rng, a: f64, b: f64) -> f64 {
+    let sum = (a + b) as i64;
+    let base = match rng.below(3) {
+        0 => sum.div_euclid(2),
+        1 => -((-sum).div_euclid(2)),
+        _ => sum / 2,
+    };
+    (base + match rng.below(8) {
+        0 => 1,
+        1 => -1,
+        _ => 0,
+    }) as f64
+}
 fn gen_path(rng: &mut Rng) -> kurbo::BezPath {
     let mut p = kurbo::BezPath::new();
     let nc = rng.range(1, 3);
@@ -1197,11 +1212,15 @@ fn gen_path(rng: &mut Rng) -> kurbo::BezPath {
     };
     for _ in 0..nc {
         if rng.chance(1, 3) {
-            // closed all-quadratic contour whose move-to point is exactly midway between the last and
-            // the first control point: from_bezpath elides it, the contour then STARTS off-curve
-            let c0 = (2.0 * rng.range(-3000, 3000) as f64, 2.0 * rng.range(-3000, 3000) as f64);
-            let cl = (2.0 * rng.range(-3000, 3000) as f64, 2.0 * rng.range(-3000, 3000) as f64);
-            let s = ((c0.0 + cl.0) / 2.0, (c0.1 + cl.1) / 2.0);
+            // closed all-quadratic contour whose move-to point is at / next to the midpoint of the last and
+            // the first control point: if exact, from_bezpath elides it and the contour STARTS off-curve
+            let c0 = (rng.range(-6000, 6000) as f64, rng.range(-6000, 6000) as f64);
+            let cl = if rng.chance(1, 2) {
+                (c0.0 + rng.range(-9, 9) as f64, c0.1 + rng.range(-9, 9) as f64)
+            } else {
+                (rng.range(-6000, 6000) as f64, rng.range(-6000, 6000) as f64)
+            };
+            let s = (near_mid(rng, c0.0, cl.0), near_mid(rng, c0.1, cl.1));
             p.move_to(s);
             p.quad_to(c0, (coord(rng), coord(rng)));
             if rng.chance(1, 2) {
@@ -1225,16 +1244,20 @@ fn gen_path(rng: &mut Rng) -> kurbo::BezPath {
                     // nothing: previous elision already arranged
                 }
                 if rng.chance(1, 2) && k + 1 < n {
-                    // pre-arrange an implied point: next control = 2*e - c0 if in range
-                    let nx = (2.0 * e.0 - c0.0, 2.0 * e.1 - c0.1);
-                    if nx.0.abs() < 16000.0 && nx.1.abs() < 16000.0 {
-                        p.quad_to(c0, e);
-                        let e2 = (coord(rng), coord(rng));
-                        p.quad_to(nx, e2);
-                        cur = e2;
-                        last_off = Some(nx);
-                        continue;
-                    }
+                    // an on-curve point at or right next to the midpoint of its two neighbouring controls
+                    // (even and odd sums, negative coordinates): implied iff it is the exact midpoint
+                    let c1 = if rng.chance(1, 2) {
+                        (c0.0 + rng.range(-9, 9) as f64, c0.1 + rng.range(-9, 9) as f64)
+                    } else {
+                        (coord(rng), coord(rng))
+                    };
+                    e = (near_mid(rng, c0.0, c1.0), near_mid(rng, c0.1, c1.1));
+                    p.quad_to(c0, e);
+                    let e2 = (coord(rng), coord(rng));
+                    p.quad_to(c1, e2);
+                    cur = e2;
+                    last_off = Some(c1);
+                    continue;
                 }
                 if rng.chance(1, 6) {
                     e = s; // curve back to the start point
@@ -1260,6 +1283,45 @@ fn gen_path(rng: &mut Rng) -> kurbo::BezPath {
         }
     }
     p
+}
+// ---------- kind 7: BezPath (integer coordinates) -> SimpleGlyph::from_bezpath -> contours ----------
+fn ser_path(p: &kurbo::BezPath) -> Vec<i128> {
+    use kurbo::PathEl::*;
+    let mut v = vec![];
+    for el in p.elements() {
+        match *el {
+            MoveTo(a) => v.extend([0, a.x as i128, a.y as i128]),
+            LineTo(a) => v.extend([1, a.x as i128, a.y as i128]),
+            QuadTo(c, a) => v.extend([2, c.x as i128, c.y as i128, a.x as i128, a.y as i128]),
+            CurveTo(a, b, c) => v.extend([4, a.x as i128, a.y as i128, b.x as i128, b.y as i128, c.x as i128, c.y as i128]),
+            ClosePath => v.push(3),
+        }
+    }
+    v
+}
+fn do_frontend(cx: &mut Ctx, p: &kurbo::BezPath) {
+    cx.st.evaluations += 1;
+    let p2 = p.clone();
+    let r = catch(move || SimpleGlyph::from_bezpath(&p2).map(|g| g.contours.iter().map(|c| c.iter().map(|q| (q.x, q.y, q.on_curve)).collect::<Vec<Pt>>()).collect::<Vec<_>>()));
+    let outs: Vec<Vec<i128>> = match &r {
+        Err(_) => vec![vec![-1]],
+        Ok(Err(_)) => vec![vec![0]],
+        Ok(Ok(cs)) => {
+            let n_in: usize = p.elements().iter().map(|e| match e { kurbo::PathEl::QuadTo(..) => 2, kurbo::PathEl::ClosePath => 0, _ => 1 }).sum();
+            let n_out: usize = cs.iter().map(|c| c.len()).sum();
+            if n_out < n_in {
+                cx.st.count("br.frontend_points_dropped");
+            }
+            vec![
+                vec![1],
+                cs.iter().map(|c| c.len() as i128).collect(),
+                cs.iter().flatten().map(|q| q.0 as i128).collect(),
+                cs.iter().flatten().map(|q| q.1 as i128).collect(),
+                cs.iter().flatten().map(|q| q.2 as i128).collect(),
+            ]
+        }
+    };
+    cx.push(7, &[ser_path(p)], &outs);
 }
 fn minimal_font(glyf: &[u8], loca: &[u8], long: bool, lsbs: &[i16]) -> Vec<u8> {
     let n_glyphs = lsbs.len() as u16;
@@ -1543,6 +1605,7 @@ fn do_draw(cx: &mut Ctx, rng: &mut Rng, n_fonts: usize) {
             Ok(Ok(v)) => v,
         };
         for (i, p) in paths.iter().enumerate() {
+            do_frontend(cx, p);
             if !ok[i] {
                 cx.st.count("draw.malformed_path");
                 continue;
@@ -1781,6 +1844,24 @@ fn main() {
     }
     // builder with a refused glyph in the middle (validation error is skipped; panic poisons)
     do_builder(&mut cx, &[G::Simple(filler_glyph(20)), G::Simple(SG { bbox: [0; 4], contours: vec![vec![(1, 1, true)]], instr: vec![0; 65536] }), G::Empty, G::Simple(filler_glyph(16))], true, "validation");
+    // rejected glyphs (validation error: caller skips them) at random positions among accepted ones
+    for _ in 0..(25 * scale) {
+        let n = rng.range(2, 6) as usize;
+        let mut gs: Vec<G> = (0..n)
+            .map(|_| match rng.below(4) {
+                0 => G::Empty,
+                1 => G::Comp(gen_composite(&mut rng)),
+                _ => G::Simple(gen_simple(&mut rng, false)),
+            })
+            .collect();
+        for _ in 0..rng.range(1, 2) {
+            let at = rng.below(gs.len() as u64 + 1) as usize;
+            let fill = rng.next_u32() as u8;
+            gs.insert(at, G::Simple(SG { bbox: gen_bbox(&mut rng), contours: vec![vec![(3, 4, true)]], instr: vec![fill; 65536 + rng.below(3) as usize] }));
+        }
+        do_builder(&mut cx, &gs, true, "rejected");
+        cx.st.count("br.builder_with_rejected_glyph");
+    }
     // --- builder: sequences straddling the short/long boundary (total 0x1FFFC .. 0x20004) ---
     for total in [0x1FFFCusize, 0x1FFFE, 0x20000, 0x20002, 0x20004] {
         for variant in 0..2 {
@@ -1803,6 +1884,14 @@ fn main() {
     }
     // --- drawing (implementation only) ---
     do_draw(&mut cx, &mut rng, 250 * scale);
+    // --- BezPath front end on malformed / unusual element sequences (model kind 7) ---
+    for svg in ["", "L1,1", "M0,0", "M0,0 Z", "M0,0 L1,1 C1,2 3,4 5,6 Z", "M0,0 L5,5 Z L7,7 L0,0 Z", "Z", "M1,1 Q2,2 1,1 Z",
+                "M0,0 Q1,1 2,2 Q3,3 0,0 Z", "M0,0 Q-1,-1 -1,-1 Q-2,-2 0,0", "M3,3 M4,4 L5,5", "M0,0 Q1,0 1,1 Q1,3 0,0 Z M0,0 L0,0 Z",
+                "M-1,-1 Q-3,-3 -3,-3 Q-4,-4 -8,0 Z", "M0,0 Q0,0 0,0 Q0,0 0,0 Z"] {
+        if let Ok(p) = kurbo::BezPath::from_svg(svg) {
+            do_frontend(&mut cx, &p);
+        }
+    }
     // --- drawing point-list glyphs in both path styles (model kind 6 + reference oracle) ---
     // fixed: two all-off-curve squares; first contour starts off-curve with last on / last off
     let sq = |o: i16, on_last: bool| -> Vec<Pt> { vec![(o, 0, false), (o + 10, 0, false), (o + 10, 10, false), (o, 10, on_last)] };
